@@ -1,0 +1,154 @@
+//go:build verif
+
+package logql
+
+// Contracts for the deductive verifier in /verif (govc). Comment-only: no code is added.
+
+//@ scope parser_metric_expr.go
+
+// ---- C13: operator precedence and associativity
+
+//@ spec func precClass(op BinOp) int {
+//@   if op == OpOr { return 1 }
+//@   if op == OpAnd || op == OpUnless { return 2 }
+//@   if op == OpEq || op == OpNotEq || op == OpGt || op == OpGte || op == OpLt || op == OpLte { return 3 }
+//@   if op == OpAdd || op == OpSub { return 4 }
+//@   if op == OpMul || op == OpDiv || op == OpMod { return 5 }
+//@   if op == OpPow { return 6 }
+//@   return 0
+//@ }
+
+//@ func (BinOp).Precedence
+//@   inline
+
+//@ lemma[C13.precedence-order] forall(1, 18, func(a int) bool { return forall(1, 18, func(b int) bool {
+//@     return (precClass(BinOp(a)) != 0 && precClass(BinOp(b)) != 0) ==>
+//@            ((precClass(BinOp(a)) < precClass(BinOp(b))) == (BinOp(a).Precedence() < BinOp(b).Precedence())) }) })
+//@ lemma[C13.binary-operators-have-precedence] forall(1, 18, func(a int) bool { return precClass(BinOp(a)) != 0 ==> BinOp(a).Precedence() >= 1 })
+
+//@ spec func peekTok(p *parser) lexer.TokenType {
+//@   return ite(len(p.tokens) <= p.pos, lexer.EOF, p.tokens[p.pos].Type)
+//@ }
+//@ spec func tokOp(t lexer.TokenType) BinOp {
+//@   if t == lexer.Or { return OpOr }
+//@   if t == lexer.And { return OpAnd }
+//@   if t == lexer.Unless { return OpUnless }
+//@   if t == lexer.Add { return OpAdd }
+//@   if t == lexer.Sub { return OpSub }
+//@   if t == lexer.Mul { return OpMul }
+//@   if t == lexer.Div { return OpDiv }
+//@   if t == lexer.Mod { return OpMod }
+//@   if t == lexer.Pow { return OpPow }
+//@   if t == lexer.CmpEq { return OpEq }
+//@   if t == lexer.NotEq { return OpNotEq }
+//@   if t == lexer.Gt { return OpGt }
+//@   if t == lexer.Gte { return OpGte }
+//@   if t == lexer.Lt { return OpLt }
+//@   if t == lexer.Lte { return OpLte }
+//@   return 0
+//@ }
+//@ spec func nextPrec(p *parser) int { return tokOp(peekTok(p)).Precedence() }
+//@ spec func topPrec(e MetricExpr) int { return ite(typeis[*BinOpExpr](e), as[*BinOpExpr](e).Op.Precedence(), 100) }
+
+//@ func (*parser).peek
+//@   requires p.pos >= 0
+//@   modifies nothing
+//@   ensures ret0.Type == peekTok(p)
+
+//@ func (*parser).next
+//@   requires p.pos >= 0
+//@   modifies p.pos
+//@   ensures ret0.Type == old(peekTok(p))
+//@   ensures p.pos == old(p.pos) + ite(old(peekTok(p)) == lexer.EOF, 0, 1)
+
+//@ func (*parser).peekBinOp
+//@   requires p.pos >= 0
+//@   modifies nothing
+//@   ensures[table] ret1 == (tokOp(peekTok(p)) != 0) && ret0 == tokOp(peekTok(p))
+
+//@ func (*parser).parseBinOpModifier
+//@   trusted
+//@   requires p.pos >= 0
+//@   modifies p.pos
+//@   ensures p.pos >= old(p.pos)
+
+//@ func (*parser).parseMetricExpr1
+//@   requires p.pos >= 0
+//@   modifies p.pos
+//@   ensures p.pos >= old(p.pos)
+//@   ensures[no-bare-binop] ret1 == nil ==> topPrec(ret0) == 100
+
+//@ func (*parser).parseBinOp
+//@   requires p.pos >= 0 && minPrecedence >= 0
+//@   requires[L-first] nextPrec(p) < minPrecedence || nextPrec(p) < topPrec(left)
+//@   requires[min-le-left] minPrecedence <= topPrec(left)
+//@   modifies p.pos
+//@   ensures p.pos >= 0
+//@   ensures[stop]       ret1 == nil ==> nextPrec(p) < minPrecedence
+//@   ensures[shape]      ret1 == nil ==> (ret0 == left || (topPrec(ret0) != 100 && topPrec(ret0) >= minPrecedence))
+//@   ensures[next-lower] ret1 == nil ==> nextPrec(p) < topPrec(ret0)
+//@   loop 0 modifies p.pos
+//@   loop 1 modifies p.pos
+//@   loop 0 invariant p.pos >= 0
+//@   loop 0 invariant nextPrec(p) < minPrecedence || nextPrec(p) < topPrec(left)
+//@   loop 0 invariant minPrecedence <= topPrec(left)
+//@   loop 0 invariant left == old(left) || (topPrec(left) != 100 && topPrec(left) >= minPrecedence)
+//@   loop 1 invariant p.pos >= 0
+//@   loop 1 invariant topPrec(right) >= op.Precedence()
+//@   loop 1 invariant nextPrec(p) < topPrec(right)
+//@   loop 1 invariant op.IsLogic() ==> !typeis[*LiteralExpr](right)
+//@   assert@alloc(BinOpExpr,0)[L]        topPrec(left) > op.Precedence() || (topPrec(left) == op.Precedence() && op != OpPow)
+//@   assert@alloc(BinOpExpr,0)[R-higher] topPrec(right) != op.Precedence() ==> topPrec(right) > op.Precedence()
+//@   assert@alloc(BinOpExpr,0)[R-equal]  topPrec(right) == op.Precedence() ==> op == OpPow
+//@   assert@alloc(BinOpExpr,0)[logic]    op.IsLogic() ==> !typeis[*LiteralExpr](left) && !typeis[*LiteralExpr](right)
+
+//@ func (BinOp).IsLogic
+//@   inline
+
+// Frames of the recursive-descent helpers called by parseMetricExpr1 (assumed, not verified:
+// the only parser state is the cursor p.pos; everything else they write is freshly allocated).
+
+//@ func (*parser).parseExpr
+//@   trusted
+//@   requires p.pos >= 0
+//@   modifies p.pos
+//@   ensures p.pos >= old(p.pos)
+
+//@ func (*parser).consume
+//@   requires p.pos >= 0
+//@   modifies p.pos
+//@   ensures p.pos >= old(p.pos)
+
+//@ func (*parser).unexpectedToken
+//@   modifies nothing
+//@   ensures ret0 != nil
+
+//@ func (*parser).parseRangeAggregationExpr
+//@   trusted
+//@   requires p.pos >= 0
+//@   modifies p.pos
+//@   ensures p.pos >= old(p.pos)
+
+//@ func (*parser).parseVectorAggregationExpr
+//@   trusted
+//@   requires p.pos >= 0
+//@   modifies p.pos
+//@   ensures p.pos >= old(p.pos)
+
+//@ func (*parser).parseLiteralExpr
+//@   trusted
+//@   requires p.pos >= 0
+//@   modifies p.pos
+//@   ensures p.pos >= old(p.pos)
+
+//@ func (*parser).parseLabelReplace
+//@   trusted
+//@   requires p.pos >= 0
+//@   modifies p.pos
+//@   ensures p.pos >= old(p.pos)
+
+//@ func (*parser).parseVectorExpr
+//@   trusted
+//@   requires p.pos >= 0
+//@   modifies p.pos
+//@   ensures p.pos >= old(p.pos)
